@@ -5,22 +5,29 @@
 use crate::core::{Ctx, Failure, PropertyMeta, Report};
 use serde_json::Value;
 
-pub mod c01;
-
-pub const ALL: [&str; 1] = ["C01"];
-
-pub fn run(ctx: &Ctx) -> Option<(Report, PropertyMeta)> {
-    Some(match ctx.id.as_str() {
-        "C01" => c01::run(ctx),
-        _ => return None,
-    })
+macro_rules! properties {
+    ($($id:literal => $m:ident),* $(,)?) => {
+        $(pub mod $m;)*
+        pub const ALL: &[&str] = &[$($id),*];
+        pub fn run(ctx: &Ctx) -> Option<(Report, PropertyMeta)> {
+            Some(match ctx.id.as_str() {
+                $($id => $m::run(ctx),)*
+                _ => return None,
+            })
+        }
+        pub fn replay(ctx: &Ctx, kind: &str, case: &Value) -> Option<Vec<Failure>> {
+            Some(match ctx.id.as_str() {
+                $($id => $m::replay(ctx, kind, case),)*
+                _ => return None,
+            })
+        }
+    };
 }
 
-pub fn replay(ctx: &Ctx, kind: &str, case: &Value) -> Option<Vec<Failure>> {
-    Some(match ctx.id.as_str() {
-        "C01" => c01::replay(ctx, kind, case),
-        _ => return None,
-    })
+properties! {
+    "C01" => c01,
+    "C02" => c02,
+    "C19" => c19,
 }
 
 /// helper for replay functions
